@@ -19,9 +19,13 @@ def run(ctx):
     ctx.rule("R1", "the set address sorts the very slice it hashes; all set-address entry points reach that leaf")
     ctx.rule("R2", "per-solution hashing depends on one solution only")
     ctx.rule("R3", "the duplicate-slot detection spans all solutions and is keyed by contract")
+    ctx.rule("R5", "the post-state view merges the mutations of *all* solutions (C03-R2): per-(contract,key) entries, never a per-solution replacement")
     H.sort_before_hash(ctx, "R1", "essential_hash::solution_set_addr::from_solution_addrs_slice", salt=False)
     H.delegation(ctx, "R1", only=r"solution_set_addr|SolutionSet>|^essential_hash::content_addr$")
     H.delegation(ctx, "R2", only=r"Address for essential_types::solution::Solution>|^essential_hash::hash$|^essential_hash::serialize$")
+    from . import C03
+    from .C19 import _Only
+    C03.r2(_Only(ctx, "R2", "R5"), prog)
     f = prog.fn("essential_hash::solution_set_addr::from_set")
     if ctx.anchor("R2", "fn from_set", f):
         ctx.saw(f)
